@@ -1,6 +1,7 @@
 import QuiverModel.Core.Types.Inh
 import QuiverModel.Core.Types.Shape
 import QuiverModel.Core.Soundness.Unify
+import QuiverModel.Lemmas.Soundness.SubstSound
 /-
 C01 — Type soundness: accepted programs never get stuck on a type error.
 
@@ -24,7 +25,10 @@ Contents
      (`guardAt`), with `tailcall_guard_missing` (F5);
   4. `call_guard_nongeneric_sound`: the non-generic branch of the call guard is sound given C09's
      `compat_sound` (stated as a hypothesis until C09 exports it);
-  5. `guard_unify_sound_partial`: see the section at the end of the file.
+  5. `guard_unify_sound_partial` (positive theorem, every fuel, every table, every rule set): on
+     the fragment "parameter built from 'int / 'bin / type variables / tuples, argument closed and
+     built from 'int / 'bin / tuples" — which includes widening of a variable bound twice to the
+     union of the argument types — unification followed by substitution is sound.
 -/
 namespace C01
 open QM.Types QM.Soundness
@@ -311,5 +315,64 @@ theorem call_guard_nongeneric_sound (hC09 : GuardCompatSoundStatement)
 
 /-- the hypotheses are satisfiable: `['int, 'int]` passed for `['int, 'int]` on the F6 table. -/
 example : callGuard Rules.current 16 tF6 3 0 3 = .accept tF6 0 := by decide
+
+/-! ### 5. The positive theorem on the fragment
+
+Fragment (decidable predicates `QM.Soundness.patT` / `argT`, depth-indexed): the parameter type is
+built from `'int`, `'bin`, type variables and tuples (any names / labels / nesting); the argument
+type is closed and built from `'int`, `'bin` and tuples — the type of a literal argument such as
+`[1, [0x00, 2]]` or `P[x: 1, y: 0x]`. On this fragment `unify` exercises the variable arm (fresh
+binding, and **widening** of an existing binding through `union_type_ids`), the base arms and the
+tuple/tuple arm, and none of the arms the `Rules` switches govern; `substitute` rebuilds and
+registers the instantiated tuple types. What is missing for the full statement
+(`GuardUnifySound`): union / cycle / partial / callable / process types on either side — for
+unions and cycles the statement is false (sections 1b, 2); partial, callable and process arms
+are not covered by a proof yet. -/
+
+/-- **Soundness of the generic-call guard on the fragment**: if unification of the parameter type
+`p` with the argument type `a` (from empty bindings) succeeds with bindings `σ`, and `σ` is
+substituted into `p`, every value of the argument type inhabits the instantiated parameter type —
+for every table, every fuel and every rule set. -/
+theorem guard_unify_sound_partial (rules : Rules) (cf f f' : Nat) (T T' T'' : Table)
+    (p a r n m : Nat) (σ : Bindings)
+    (hp : patT T n p = true) (ha : argT T m a = true)
+    (hu : unifyWith rules cf f T [] p a = some (T', some σ))
+    (hs : substitute σ f' T' p = some (T'', r)) :
+    ∀ v, inh T [] a v → inh T'' [] r v := by
+  have hb0 : BOk T [] := fun x t h => by simp [Bindings.get, List.lookup] at h
+  obtain ⟨hE, hbσ, _, hsound⟩ := unify_sound_aux rules cf f T [] p a T' σ n m hu hp ha hb0
+  obtain ⟨_, _, hsub⟩ :=
+    substitute_sound σ f' T' p T'' r n hs (patT_transfer hE n p n hp (Nat.le_refl _)) hbσ
+  exact fun v hv => hsub v (hsound v hv)
+
+/-- the bindings produced on the fragment only mention first-order types, and the tables only grow. -/
+theorem guard_unify_partial_tables (rules : Rules) (cf f f' : Nat) (T T' T'' : Table)
+    (p a r n m : Nat) (σ : Bindings)
+    (hp : patT T n p = true) (ha : argT T m a = true)
+    (hu : unifyWith rules cf f T [] p a = some (T', some σ))
+    (hs : substitute σ f' T' p = some (T'', r)) :
+    Ext T T' ∧ Ext T' T'' ∧ BOk T' σ := by
+  have hb0 : BOk T [] := fun x t h => by simp [Bindings.get, List.lookup] at h
+  obtain ⟨hE, hbσ, _, _⟩ := unify_sound_aux rules cf f T [] p a T' σ n m hu hp ha hb0
+  obtain ⟨hE', _, _⟩ :=
+    substitute_sound σ f' T' p T'' r n hs (patT_transfer hE n p n hp (Nat.le_refl _)) hbσ
+  exact ⟨hE, hE', hbσ⟩
+
+/-- The hypotheses are satisfiable by a non-trivial instance with widening: parameter `['t, 't]`,
+argument `['int, 'bin]` (the literal `[1, 0x00]`): the guard answers `'t := 'int | 'bin`, the
+instantiated parameter is `[('int | 'bin), ('int | 'bin)]`.
+tuples: 2 `['t, 't]`, 3 `['int, 'bin]`; types: 0 'int, 1 'bin, 2 't, 3 `['t, 't]`, 4 `['int, 'bin]`. -/
+def tWiden : Table :=
+  { types := [.integer, .binary, .variable 7, .tuple 2, .tuple 3],
+    tuples := [⟨none, []⟩, ⟨some 1, []⟩, ⟨none, [(none, 2), (none, 2)]⟩, ⟨none, [(none, 0), (none, 1)]⟩] }
+
+example : patT tWiden 2 3 = true ∧ argT tWiden 2 4 = true := by decide
+
+example : unifyWith Rules.current 8 8 tWiden [] 3 4 =
+    some ({ tWiden with types := tWiden.types ++ [.union [0, 1]] }, some [(7, 5)]) := by decide
+
+/-- the instance, run: `[1, 0x00]` inhabits the instantiated parameter (new type 6). -/
+example : guardInstance Rules.current 8 tWiden 3 4
+    (.tup none (.cons none (.int 1) (.cons none (.bin [0]) .nil))) = some (6, true, true) := by decide
 
 end C01
